@@ -57,11 +57,51 @@ class AwesomeyamlLoader(yaml.Loader):
 
     def construct_document(self, node):
         try:
-            return super().construct_document(node)
+            data = super().construct_document(node)
+            self._keep_copies_unsafe(node)
+            return data
         finally:
             self.__dict__.pop('_aliased_nodes', None)
-            self.__dict__.pop('_first_nodes', None)
-            self.__dict__.pop('_constructing_again', None)
+            self.__dict__.pop('_made_from', None)
+
+    def _keep_copies_unsafe(self, root):
+        ''' What is written below an !unsafe node stays unsafe wherever a yaml alias (or a merge key) repeats it: content does not
+            become safe by being referred to from another place. Decided when the document is complete, from the text: the first
+            place of a yaml node in document order is the one it is written at (which of the nodes made from it was made first says
+            nothing - an untagged container is filled late). A node made from it that is safe where it stands gets the flag as its
+            own (which dump writes, too).
+        '''
+        made = self.__dict__.get('_made_from', {})
+        seen = set()
+        todo = []
+
+        def visit(node, below_unsafe):
+            if id(node) in seen:
+                return
+            seen.add(id(node))
+            if below_unsafe and len(made.get(node, ())) > 1: # (made more than once: for aliases / merge keys as well)
+                todo.append(node)
+            below_unsafe = below_unsafe or any(made_node._safe is False for made_node in made.get(node, ()))
+            if isinstance(node, yaml.SequenceNode):
+                for child in node.value:
+                    visit(child, below_unsafe)
+            elif isinstance(node, yaml.MappingNode):
+                for key, child in node.value:
+                    visit(key, False) # (keys carry no flags)
+                    visit(child, below_unsafe)
+
+        def hand_down(made_node):
+            for child in getattr(made_node, '_children', {}).values():
+                if child._implicit_safe is not False:
+                    child._implicit_safe = False
+                    hand_down(child)
+
+        visit(root, False)
+        for node in todo: # (in document order: containers before what they hold)
+            for made_node in made[node]:
+                if made_node.ayns.safe:
+                    made_node._safe = False
+                    hand_down(made_node)
 
     @staticmethod
     def _make_generator(value, update_fn):
@@ -94,14 +134,7 @@ class AwesomeyamlLoader(yaml.Loader):
         aynode = self._convert(value, node)
 
         if isinstance(aynode, ConfigNode):
-            first = self.__dict__.setdefault('_first_nodes', {})
-            if node not in first:
-                if not self.__dict__.get('_constructing_again'):
-                    # at the place it is written at (an untagged container is filled late, possibly after a copy of it has been made)
-                    first[node] = aynode
-            elif first[node] is not aynode and not first[node].ayns.safe:
-                # made again, for an alias of something unsafe: content does not become safe by being referred to from another place
-                aynode._implicit_safe = False
+            self.__dict__.setdefault('_made_from', {}).setdefault(node, []).append(aynode) # (see _keep_copies_unsafe)
 
         if value is not aynode and len(self.state_generators) > queued:
             # pyyaml constructs untagged containers lazily (unless "deep"): the value is still empty and a generator, queued in
@@ -163,11 +196,9 @@ class AwesomeyamlLoader(yaml.Loader):
 
         collect(node)
         forgotten = { n: self.constructed_objects.pop(n) for n in below if n in self.constructed_objects }
-        nested, self._constructing_again = self.__dict__.get('_constructing_again', False), True
         try:
             return self.construct_object(node, deep=True)
         finally:
-            self._constructing_again = nested
             # what has been made for this place is not handed out again, the other places keep what they had
             for n in below:
                 if n in self.constructed_objects and not shared(n):
